@@ -97,11 +97,16 @@ Qed.
 (* rewrite every translated kernel into its model counterpart *)
 Ltac to_model :=
   repeat first
-    [ rewrite tie_i128_div_rounded
-    | rewrite tie_i128_mul_div_ten_pow_rounded
+    [ match goal with |- context [g_i128_div_rounded ?pf ?dflt ?n ?d ?om] => rewrite (tie_i128_div_rounded pf dflt n d om) end
+    | match goal with |- context [g_i128_mul_div_ten_pow_rounded ?pf ?dflt ?x ?y ?p ?om] =>
+        rewrite (tie_i128_mul_div_ten_pow_rounded pf dflt x y p om) end
     | progress change g_ten_pow with (fun (_ : profile) => ten_pow)
     | progress change g_checked_ten_pow with (fun (_ : profile) => checked_ten_pow)
     | progress change g_mul_pow_ten with (fun (_ : profile) => mul_pow_ten)
     | progress change g_checked_mul_pow_ten with (fun (_ : profile) => checked_mul_pow_ten)
     | progress change g_i128_div_mod_floor with i128_div_mod_floor ];
   cbv beta iota.
+
+(* the generic tie tactic for functions that call translated kernels: rewrite the kernels that have become visible
+   into their model counterparts, split one more step, repeat *)
+Ltac tie3 := repeat (cbv beta iota zeta; cbn [bind]; try to_model; tie2_step); cbn [bind]; try to_model; cbn [bind negb andb orb]; try fin.
